@@ -3,7 +3,7 @@
    [py_*] is CPython 3.12's dataclasses module.
    A module is a table of classes in definition order; [py_eval_table t = Some e] says CPython executes it. *)
 From Coq Require Import List Arith Bool.
-From Verif Require Import Lib.Sexp Model.C18_dataclass Proofs.C18_dataclass.
+From Verif Require Import Lib.Sexp Model.C18_dataclass Model.C18_session Proofs.C18_dataclass Proofs.C18_session.
 Import ListNotations.
 Open Scope list_scope. Open Scope nat_scope.
 
@@ -82,3 +82,62 @@ Print Assumptions C18_inherited_label.
 Theorem C18_label_eq_is_dataclass : forall t c, g_label t c = py_is_dataclass t c.
 Proof. exact label_eq_is_dataclass. Qed.
 Print Assumptions C18_label_eq_is_dataclass.
+
+(* ---------------------------------------------------------------------------------------------------------------
+   The constructor Griffe PRESENTS for a class (Class.parameters: the class' own __init__ member, else the first one
+   along its MRO) against the one CPython resolves (cls.__init__ along __mro__ = inspect.signature(cls)); this is the
+   only constructor an undecorated subclass of a dataclass, or a @dataclass(init=False) class, has.
+   The class that PROVIDES it is the same for both, for every accepted table, gaps or not ... *)
+Theorem C18_presented_provider_eq : forall t e i c, py_eval_table t = Some e ->
+  option_map fst (g_presented t i c) = option_map fst (py_presented t e i c).
+Proof. exact presented_provider_eq. Qed.
+Print Assumptions C18_presented_provider_eq.
+(* ... and the constructors are equal when every class that can provide it (the class and its MRO) is outside the known gaps. *)
+Theorem C18_presented_eq_cpython_modulo_known : forall t e i c, py_eval_table t = Some e ->
+  (forall j b, In j (i :: c_mro c) -> nth_error t j = Some b -> decorated b = true -> c_hw b = None -> known_gap t e j b = false) ->
+  g_presented t i c = py_presented t e i c.
+Proof. exact presented_eq_modulo_known. Qed.
+Print Assumptions C18_presented_eq_cpython_modulo_known.
+(* non-vacuity: a diamond whose undecorated join takes the constructor of its SECOND base (the first is a plain subclass) *)
+Theorem C18_presented_example : exists e, py_eval_table dia = Some e /\
+  (forall j b, In j (3 :: c_mro (cls_at dia 3)) -> nth_error dia j = Some b -> decorated b = true -> c_hw b = None -> known_gap dia e j b = false) /\
+  g_presented dia 3 (cls_at dia 3) = Some (2, Synth [mkp 0 PK false; mkp 1 PK true; mkp 2 PK true]).
+Proof. exact dia_presented. Qed.
+Print Assumptions C18_presented_example.
+
+(* ---------------------------------------------------------------------------------------------------------------
+   The extension as the state machine it is (Model/C18_session.v): ONE extension object serves any number of
+   on_package_loaded events; the parameters of a class are memoised for the life of the process, InitVar members are
+   deleted after a class was handled, classes are walked in member order (a subclass before or after its bases; the
+   bases possibly from a package loaded by an earlier event), canonical paths seen during the same event are skipped.
+   For EVERY history of events (any number, any walk orders, any interleaving of packages and of versions of one
+   package) in which one event never meets the same canonical path twice (a package is a tree), every class an event
+   has walked over carries exactly the stateless result of the per-class model: the state never leaks. *)
+Theorem C18_session_transparent : forall t paths evs,
+  (forall ev, In ev evs -> NoDup (map (fun j => nth j paths 0) ev)) ->
+  forall ev j c, In ev evs -> In j ev -> nth_error t j = Some c ->
+  s_member (session t paths evs) j c = g_init_member t c /\ s_labelled (session t paths evs) j c = g_label t c.
+Proof. exact session_transparent. Qed.
+Print Assumptions C18_session_transparent.
+(* hence, after any such history, the __init__ member is CPython's, modulo the known gaps *)
+Theorem C18_session_eq_cpython_modulo_known : forall t e paths evs,
+  py_eval_table t = Some e ->
+  (forall ev, In ev evs -> NoDup (map (fun j => nth j paths 0) ev)) ->
+  forall ev j c, In ev evs -> In j ev -> nth_error t j = Some c ->
+  decorated c = true -> c_hw c = None -> known_gap t e j c = false ->
+  s_member (session t paths evs) j c = py_init_member e j c.
+Proof. exact session_eq_cpython_modulo_known. Qed.
+Print Assumptions C18_session_eq_cpython_modulo_known.
+(* The statement is sensitive to the two pieces of state: with the memo dropped at each event a dataclass of a later
+   package loses the InitVar pseudo-fields of a base loaded earlier (the base is recomputed from pruned members) ... *)
+Theorem C18_session_needs_the_memo :
+  s_member (session two_pkgs [0; 1] [[0]; [1]]) 1 (cls_at two_pkgs 1) = Synth [mkp 0 PK false; mkp 1 PK true; mkp 2 PK true] /\
+  s_member (session_gen true false two_pkgs [0; 1] [[0]; [1]]) 1 (cls_at two_pkgs 1) = Synth [mkp 0 PK false; mkp 2 PK true].
+Proof. split; [exact (proj1 session_two_pkgs) | exact cache_is_load_bearing]. Qed.
+Print Assumptions C18_session_needs_the_memo.
+(* ... and with the set of seen paths kept on the extension the second version of a package is skipped altogether. *)
+Theorem C18_session_needs_a_fresh_seen_set :
+  s_member (session two_versions [7; 7] [[0]; [1]]) 1 (cls_at two_versions 1) = Synth [mkp 0 PK false; mkp 1 PK true] /\
+  s_member (session_gen false true two_versions [7; 7] [[0]; [1]]) 1 (cls_at two_versions 1) = Absent.
+Proof. exact processed_must_be_per_event. Qed.
+Print Assumptions C18_session_needs_a_fresh_seen_set.
